@@ -393,6 +393,125 @@ class Models:
     def m_slice__contains(self, c, v, x):
         return b_or(*[val_eq(y, x) for y in items_of(v).items])
 
+    def _binary_search_by(self, items, cmp):
+        """core::slice::binary_search_by as implemented in std (1.82+): no early exit on Equal"""
+        size = len(items)
+        if size == 0:
+            return Err(0)
+        base = 0
+        while size > 1:
+            half = size // 2
+            mid = base + half
+            o = cmp(items[mid])
+            base = base if o == 1 else mid
+            size -= half
+        o = cmp(items[base])
+        if o == 0:
+            return Ok(base)
+        return Err(base + (1 if o == -1 else 0))
+
+    def m_slice__binary_search(self, c, v, x):
+        s = items_of(v)
+        x = deref(x)
+
+        def cmp(e):
+            e = deref(e)
+            if self.ctx.branch(val_lt(e, x)):
+                return -1
+            if self.ctx.branch(val_eq(e, x)):
+                return 0
+            return 1
+        return self._binary_search_by(list(s.items), cmp)
+
+    def m_slice__binary_search_by(self, c, v, f):
+        s = items_of(v)
+        vec = s.vec if isinstance(s, SliceView) else s
+        off = s.lo if isinstance(s, SliceView) else 0
+        n = len(s.items)
+        return self._binary_search_by([Ref(vec.items, off + i) for i in range(n)], lambda r: self.call_closure(f, r).discr)
+
+    def m_slice__binary_search_by_key(self, c, v, key, f):
+        s = items_of(v)
+        vec = s.vec if isinstance(s, SliceView) else s
+        off = s.lo if isinstance(s, SliceView) else 0
+        key = deref(key)
+
+        def cmp(r):
+            k = self.call_closure(f, r)
+            if self.ctx.branch(val_lt(k, key)):
+                return -1
+            if self.ctx.branch(val_eq(k, key)):
+                return 0
+            return 1
+        return self._binary_search_by([Ref(vec.items, off + i) for i in range(len(s.items))], cmp)
+
+    def m_slice__swap(self, c, v, i, j):
+        s = items_of(v)
+        vec = s.vec if isinstance(s, SliceView) else s
+        off = s.lo if isinstance(s, SliceView) else 0
+        if i >= len(s.items) or j >= len(s.items):
+            raise RustPanic('swap index out of bounds')
+        vec.items[off + i], vec.items[off + j] = vec.items[off + j], vec.items[off + i]
+        return UNIT
+
+    def m_slice__reverse(self, c, v):
+        s = items_of(v)
+        if isinstance(s, SliceView):
+            s.vec.items[s.lo:s.hi] = list(reversed(s.items))
+        else:
+            s.items.reverse()
+        return UNIT
+
+    def m_slice__starts_with(self, c, v, p):
+        a, b = items_of(v).items, items_of(p).items
+        if len(b) > len(a):
+            return False
+        return b_and(*[val_eq(x, y) for x, y in zip(a, b)])
+
+    def m_slice__concat(self, c, v):
+        out = []
+        for x in items_of(v).items:
+            out.extend(items_of(x).items)
+        return RVec(out)
+
+    def m_Vec__truncate(self, c, v, n):
+        del deref(v).items[n:]
+        return UNIT
+
+    def m_Vec__drain(self, c, v, rng):
+        vec = deref(v)
+        rng = deref(rng)
+        if rng.ty == 'RangeFull':
+            lo, hi = 0, len(vec.items)
+        else:
+            lo, hi = rng.f[0], rng.f[1]
+        out = vec.items[lo:hi]
+        del vec.items[lo:hi]
+        return list_iter(out)
+
+    def m_Vec__first(self, c, v):
+        return self.m_slice__first(c, v)
+
+    def m_Vec__last(self, c, v):
+        return self.m_slice__last(c, v)
+
+    def m_Vec__contains(self, c, v, x):
+        return self.m_slice__contains(c, v, x)
+
+    def m_Vec__sort(self, c, v):
+        return self.m_slice__sort_unstable(c, v)
+
+    m_Vec__sort_unstable = m_Vec__sort
+
+    def m_Vec__reverse(self, c, v):
+        return self.m_slice__reverse(c, v)
+
+    def m_Vec__extend(self, c, v, src):
+        return self.m_Extend__extend(c, v, src)
+
+    def m_Vec__get(self, c, v, i):
+        return self.m_slice__get(c, v, i)
+
     def m_slice__to_vec(self, c, v):
         return RVec([deep_clone(x) for x in items_of(v).items])
 
